@@ -148,7 +148,8 @@ def _float_to_cst(value: float) -> cst.BaseExpression:
     """Render a float value as a CST expression node.
 
     Uses ``repr()`` on the absolute value to guarantee a valid float literal
-    string, then wraps in ``UnaryOperation(Minus, …)`` for negative values.
+    string, then wraps in ``UnaryOperation(Minus, …)`` for negative values,
+    including negative zero.
 
     Args:
         value: The float to render.
@@ -168,7 +169,8 @@ def _float_to_cst(value: float) -> cst.BaseExpression:
         if "." not in float_str and "e" not in float_str:
             float_str += ".0"
         inner = cst.Float(float_str)
-    if value < 0:
+    # Negative zero compares equal to zero; only its sign bit tells it apart.
+    if value < 0 or (value == 0 and math.copysign(1.0, value) < 0):
         return cst.UnaryOperation(
             operator=cst.Minus(),
             expression=inner,
